@@ -77,7 +77,7 @@ def node_stage(pid, tier, seed, known, cov, violations, known_hits):
 
 MIXED_PROPS = {"C03", "C19", "C20"}
 
-def mixed_stage(pid, tier, seed, cov, violations):
+def mixed_stage(pid, tier, seed, cov, violations, known_hits=None):
     """factories with Fleet / conveyor / Buffer edges: run twice here and in two fresh interpreters with different hash seeds"""
     import mixed_family as mf
     tf = time.time()
@@ -87,6 +87,13 @@ def mixed_stage(pid, tier, seed, cov, violations):
                                     judge_violations_all_props=len(r["viol"]), wall_s=round(time.time() - tf, 2))
     cov["evaluations"] += r["n"] * 4; cov["distinct_nontrivial"] += r["n"]
     mine = [v for v in r["viol"] if v[0] == pid]
+    # known finding KF-D29 inside a factory: an ACCUMULATING continuous conveyor whose items are not slot-aligned lets them
+    # overlap until `_get_belt_pattern` raises its "placement logic error" - identified by that very message and the edge
+    d29 = [v for v in mine if v[1] == "kernel-exception" and "placement logic error" in v[2]
+           and any(e["kind"] == "cbelt" and e["acc"] for e in v[3]["edges"])]
+    if d29 and known_hits is not None:
+        known_hits["KF-D29"] = known_hits.get("KF-D29", 0) + len(d29)
+    mine = [v for v in mine if v not in d29]
     say(f"[check {pid}] family mixed: {r['n']} factories x (2 runs here + 2 fresh interpreters), edge kinds {r['kinds']}, "
         f"{r['movements']} movements, {len(mine)} judge hits for {pid}")
     if mine:
@@ -280,7 +287,7 @@ def check_property(pid, tier, seed):
     if pid in NODE_PROPS:
         node_stage(pid, tier, seed, known, cov, violations, known_hits)
     if pid in MIXED_PROPS:
-        mixed_stage(pid, tier, seed, cov, violations)
+        mixed_stage(pid, tier, seed, cov, violations, known_hits)
     if pid == "C20":
         config_stage(pid, tier, seed, cov, violations, known_hits)
     # ---- known findings / fixed findings: replay the recorded witnesses on the real code
